@@ -105,9 +105,17 @@ func randFieldText(r *rng, t reflect.Type, pf [4]int, k fileKnobs) string {
 		if v > (1<<30)-1 {
 			v = (1 << 30) - 1
 		}
+		if r.chance(25) {
+			// the ends of the valid range (-90 degrees exactly; +90 degrees is finding D14) and zero
+			v = []int64{-(1 << 30), -(1 << 30) + 1, (1 << 30) - 1, (1 << 30) - 2, 0, -1, 1}[r.intn(7)]
+		}
 		return "a" + strconv.FormatInt(v, 10)
 	case reflect.TypeOf(fit.Longitude{}):
 		v := int64(int32(r.next()))
+		if r.chance(25) {
+			// the ends of the valid range (-180 degrees exactly) and zero
+			v = []int64{-(1 << 31), -(1 << 31) + 1, (1 << 31) - 2, (1 << 31) - 3, 0, -1, 1}[r.intn(7)]
+		}
 		if v == 0x7FFFFFFF {
 			v = 1
 		}
@@ -123,10 +131,19 @@ func randFieldText(r *rng, t reflect.Type, pf [4]int, k fileKnobs) string {
 	case reflect.Uint64:
 		return "u" + strconv.FormatUint(randUintFor(r, 64, k.boundaries), 10)
 	case reflect.Int8:
+		if k.boundaries && r.chance(25) {
+			return "i" + strconv.FormatInt([]int64{-128, -127, 126, 0, -1}[r.intn(5)], 10)
+		}
 		return "i" + strconv.FormatInt(int64(int8(r.next())), 10)
 	case reflect.Int16:
+		if k.boundaries && r.chance(25) {
+			return "i" + strconv.FormatInt([]int64{-32768, -32767, 32766, 0, -1}[r.intn(5)], 10)
+		}
 		return "i" + strconv.FormatInt(int64(int16(r.next())), 10)
 	case reflect.Int32:
+		if k.boundaries && r.chance(25) {
+			return "i" + strconv.FormatInt([]int64{-2147483648, -2147483647, 2147483646, 0, -1}[r.intn(5)], 10)
+		}
 		return "i" + strconv.FormatInt(int64(int32(r.next())), 10)
 	case reflect.Int64:
 		return "i" + strconv.FormatInt(int64(r.next()), 10)
